@@ -21,9 +21,9 @@ def _dview(ctx, fn):
     """normalised view prepared for the denotation: calls to pure name-choosing helpers folded to the names they can return, loops
     over literal tables unrolled"""
     from ..h5den import fold_const_calls
-    from ._c02_flow import unroll_literal_loops
+    from ._c02_flow import fold_literal_concat, unroll_literal_loops
 
-    return unroll_literal_loops(fold_const_calls(ctx.view(fn), ctx.p, ctx.view))
+    return unroll_literal_loops(fold_literal_concat(fold_const_calls(ctx.view(fn), ctx.p, ctx.view)))
 
 
 def type_uid_of(K):
@@ -61,7 +61,7 @@ def rule_spec(ctx) -> RuleResult:
 
     igv = _dview(ctx, ig)
     dn = Den(igv, ctx.p)
-    got, got_t, has_project = set(), set(), False
+    got, got_t, has_project, stray = set(), set(), False, []
     for c in ast.walk(igv.node):
         if isinstance(c, ast.Call) and isinstance(c.func, ast.Attribute) and c.func.attr in ("create_group", "require_group") and c.args:
             for path in dn.paths(c):
@@ -71,6 +71,8 @@ def rule_spec(ctx) -> RuleResult:
                     got |= set(path[1][1])
                 elif len(path) == 3 and path[0] == ("PROJECT",) and path[1] == ("const", frozenset({"Types"})) and path[2][0] == "const":
                     got_t |= set(path[2][1])
+                else:
+                    stray.append((c, path))  # a group of the file that is neither the project, nor one of its containers, nor a type container
     if not has_project:
         raise AnalysisError("H5Writer.init_geoh5: project group creation not recognised")
     want = set(doc.skeleton()) - {"Root"}
@@ -84,6 +86,13 @@ def rule_spec(ctx) -> RuleResult:
     res.inst(f"init_geoh5 creates {sorted(got_t)} under Types; document: {sorted(want_t)}", ok=ok)
     if not ok:
         res.find("H5Writer", "init_geoh5", f"type containers {sorted(got_t)} differ from the documented {sorted(want_t)}", ig.where, "types cannot be filed by kind")
+    from ..h5den import fmt as _fmt
+
+    ok = not stray
+    res.inst(f"init_geoh5 creates no group outside the documented hierarchy ({len(stray)} found)", ok=ok)
+    if not ok:
+        res.find("H5Writer", "init_geoh5", f"creates the group {_fmt(stray[0][1])[:60]}, which the documented hierarchy does not have", f"{ig.module.relpath}:{stray[0][0].lineno}",
+                 "a new file holds a group that is not part of the format (inside a flat container it stands where only entity nodes named by their uid may be)")
     we = W.methods["write_entity"]
     root_links = [a for a in ast.walk(we.node) if isinstance(a, ast.Assign) and isinstance(a.targets[0], ast.Subscript) and unparse(a.targets[0].slice) == "'Root'"]
     we_roles = writer_roles(we.node)
@@ -338,6 +347,30 @@ def rule_link(ctx) -> RuleResult:
             if not ok:
                 res.find("H5Writer", mname, f"returns {(sorted(fmt(x) for x in rp) or [unparse(r.value)])[0][:40]}", f"{fn.module.relpath}:{r.lineno}",
                          f"the returned node is not {what}" + (f": {msg}" if msg else ""))
+    # the denotation takes `fetch_handle(h5file, E)` for node(E) / tnode(E): the containers it walks through (and creates when missing) are
+    # exactly the documented ones — a name that is not a container of the format is a bogus group under the project and an entity never found
+    from ..h5den import TYPEC
+
+    fh = views.get("fetch_handle")
+    if fh is None:
+        raise AnalysisError("anchor H5Writer.fetch_handle not found")
+    dfh = Den(fh, ctx.p)
+    walked = set()
+    for x in ast.walk(fh.node):
+        if isinstance(x, ast.Subscript) or (isinstance(x, ast.Call) and isinstance(x.func, ast.Attribute) and x.func.attr in ("create_group", "require_group", "get") and x.args):
+            for path in dfh.paths(x):
+                if path[0] in (("PROJECT",),) or path[0][0] in ("NODE", "TNODE"):
+                    for seg in path[1:]:
+                        if seg[0] == "const":
+                            walked |= set(seg[1])
+    documented = set(FLAT) | {"Types"} | set(TYPEC)
+    ok = walked == documented
+    res.inst(f"fetch_handle walks through the containers {sorted(walked)}; documented: {sorted(documented)}", nontrivial=True, ok=ok)
+    if not ok:
+        odd = sorted(walked - documented) or sorted(documented - walked)
+        res.find("H5Writer", "fetch_handle", f"containers {odd} {'are not part of the format' if walked - documented else 'are never looked up'}", W.methods["fetch_handle"].where,
+                 "entities (or types) of that kind are looked up in a group the format does not have: the stored node is never found, the writer creates "
+                 "a bogus container under the project and writes the entity again or not at all")
     # no soft / external links, no node copies, no group named Type
     for fn in p.all_functions():
         for n in ast.walk(fn.node):
